@@ -473,7 +473,16 @@ func (ex *Exec) mergeStates(ins []incoming) (*Term, *State) {
 			}
 		}
 		if in.st.next != base.next {
-			base.next = Ite(in.pc, in.st.next, base.next)
+			// a merged allocation counter gets its own symbol (so that later identifiers keep the form
+			// counter + k) with the common lower bound of both sides
+			merged := Ite(in.pc, in.st.next, base.next)
+			nn := Fresh("next", BV64)
+			nextSyms[nn] = true
+			if lb, ok := commonNextBound(in.st.next, base.next); ok {
+				nextGE[nn] = lb
+			}
+			ex.assume(True, Eq(nn, merged))
+			base.next = nn
 		}
 		if len(in.st.defers) != len(base.defers) {
 			panic(unsupported("conditional defer (different defer stacks at a join)"))
@@ -773,4 +782,40 @@ func convInt(t *Term, from, to types.Type) *Term {
 		return SExt(t, w)
 	}
 	return ZExt(t, w)
+}
+
+// nextChain: lower bounds (counter symbol, offset) of an allocation counter term, nearest first
+func nextChain(t *Term) []idBound {
+	var out []idBound
+	b, k, ok := splitAddConst(t)
+	if !ok || !nextSyms[b] {
+		return nil
+	}
+	out = append(out, idBound{b, k})
+	cur := b
+	for d := 0; d < 64; d++ {
+		g, ok := nextGE[cur]
+		if !ok {
+			break
+		}
+		out = append(out, g)
+		cur = g.base
+	}
+	return out
+}
+
+func commonNextBound(a, b *Term) (idBound, bool) {
+	ca, cb := nextChain(a), nextChain(b)
+	for _, x := range ca {
+		for _, y := range cb {
+			if x.base == y.base {
+				k := x.k
+				if y.k < k {
+					k = y.k
+				}
+				return idBound{x.base, k}, true
+			}
+		}
+	}
+	return idBound{}, false
 }
